@@ -269,13 +269,19 @@ def run_case(case) -> Outcome:
     node = canopen.RemoteNode(NODE, build_od(client_od(case)))
     net.add_node(node)
     node.sdo.RESPONSE_TIMEOUT = 0.05
-    pmap = (node.rpdo if case["dir"] == "rpdo" else node.tpdo)[case["number"]]
     D = []
     tag = (f"{case['dir']}{case['number']} source {case['source']} pre-enabled {pre['enabled']} "
            f"cfg {case['cfg']}")
 
     def bad(kind, detail):
         D.append(Discrepancy(f"C09/{kind}", f"{tag}: {detail}"))
+
+    try:
+        pmap = (node.rpdo if case["dir"] == "rpdo" else node.tpdo)[case["number"]]
+    except Exception as e:
+        bad("map-missing", f"the dictionary describes {case['dir'].upper()} {case['number']} but the node object "
+                           f"has no such map: {type(e).__name__}: {e}")
+        return Outcome(True, "map-missing", D)
 
     cfg = case["cfg"]
     src = case["source"]
